@@ -25,3 +25,19 @@ PROPS['C02']={
    {'name':'step_authorization','module':'harness.C02','cls':'StepAuthorization','quick':{'nfun':2,'nsig':2},'thorough':{'nfun':3,'nsig':2,'unknown_pubkey':True}},
    {'name':'two_steps','module':'harness.C02','cls':'StepAuthorization','tier_only':'thorough','quick':{},'thorough':{'nfun':2,'nsig':1,'two_steps':True}},
  ]}
+
+PROPS['C01']={
+ 'bounds_statement':'in_toto_verify from MIR: every caller key-map shape (empty, subsets, alias, mislabel) x every list of <= N layout signatures with free label/made_by/intact/over x every hash-map order; Ok implies a non-empty, un-aliased key set each of whose keys has an intact signature over exactly the enforced content.',
+ 'assumptions':PIPE_ASSUME+['"content changed after signing" is the ghost bit `over` of the ideal-signature oracle (the signed bytes are an injective function of the content: C05)'],
+ 'obligations':[
+   {'name':'gate','module':'harness.C01','cls':'LayoutGate','quick':{'nown':2,'nsig':3},'thorough':{'nown':3,'nsig':4}},
+   {'name':'gate_with_step','module':'harness.C01','cls':'LayoutGate','quick':{'nown':2,'nsig':2,'with_step':True},'thorough':{'nown':2,'nsig':3,'with_step':True}},
+ ]}
+
+PROPS['C06']={
+ 'bounds_statement':'in_toto_verify from MIR with the clock as a symbolic instant: expiry and verification instants are unconstrained 64+32-bit vectors; top level and one level of delegation.',
+ 'assumptions':PIPE_ASSUME+['chrono::DateTime<Utc> ordering = lexicographic (seconds, nanoseconds); chrono\'s own arithmetic is cross-checked by a Kani harness in the thorough tier'],
+ 'obligations':[
+   {'name':'expiry_top','module':'harness.C06','cls':'Expiry','quick':{},'thorough':{},'validate':{'quick':2,'thorough':2}},
+   {'name':'expiry_sub','module':'harness.C06','cls':'Expiry','quick':{'sub':True},'thorough':{'sub':True},'validate':{'quick':3,'thorough':3}},
+ ]}
